@@ -403,10 +403,18 @@ class UnknownAuthBlock(AuthBlock):
     def __init__(self, tag: int, binary_value: bytes) -> None:
         super().__init__(tag)
         self.binary_value = binary_value
+        # session key of the file this block was read from (if known): the
+        # opaque block wraps that key and cannot be wrapped anew
+        self.session_key: Optional[bytes] = None
 
     def pack(
         self, session_key: bytes, ext_encryptors: Iterable[Encryptor] = ()
     ) -> bytes:
+        if self.session_key is not None and session_key != self.session_key:
+            raise Bec2FileFormatError(
+                "An authblock that was kept undecrypted cannot be written to "
+                "a file with another sessionkey"
+            )
         return self.binary_value
 
     @classmethod
@@ -518,6 +526,9 @@ class Bec2File:
                             "not all authblocks contain the same sessionkey"
                         )
                     common_session_key = session_key
+        for auth_block in auth_blocks:
+            if isinstance(auth_block, UnknownAuthBlock):
+                auth_block.session_key = common_session_key
         return auth_blocks, common_session_key
 
     def __repr__(self) -> str:
